@@ -8,8 +8,17 @@
 """
 import math
 import numpy as np
+import arrays_ops
 from arrays_ops import (op, directed, rshape, bpair, rvals, arange_vals, modulus, to_np, same, shp, ints, opt, flat_ints,
                         ALLK, ORD, FLD, F, ULP)
+
+
+def _pick(rng, force, options):
+    c = rng.choice(options)
+    return force if force in options else c
+
+
+VARIANTS = {'np_transcendental': ['log', 'log2', 'log10', 'exp2', 'exp', 'pow_float', 'rpow2', 'rpow3'], 'np_xstack': ['vstack', 'hstack', 'dstack', 'column_stack', 'row_stack', 'block'], 'np_dims': ['expand_dims', 'squeeze', 'diag', 'diagflat'], 'np_flatten': ['flatten', 'tolist', 'copy', 'flat'], 'np_split': ['split', 'hsplit', 'vsplit', 'dsplit'], 'np_flip': ['flip', 'fliplr', 'flipud'], 'np_cumsum': ['cumsum', 'cumulative_sum'], 'np_trace': ['trace', 'diagonal'], 'np_argmin': ['argmin', 'argmax'], 'np_where': ['where', 'if_swap']}
 
 
 def fmod(kind, a):
@@ -176,6 +185,8 @@ def _unary(name, kinds, sec_f, np_f, sc_f, mode='small', tol=0.0, check=None, ch
         par = params(rng, kind) if params else {}
         md = par.pop('_mode', mode)
         a = rvals(rng, kind, s, md)
+        if force == 'f4' and kind == 'int':      # the original F4 reproducer: np_lsb(secint.array([3,4,-5,6])), m=3, no PRSS
+            s, a = (4,), np.array([3, 4, -5, 6], dtype=object)
         return {'inputs': {'a': a}, 'call': lambda mpc, S, X: sec_f(mpc, X['a'], **par),
                 'ref': lambda P: fmod(kind, np_f(kind, P['a'], **par)),
                 'scalar': (lambda mpc, S, L: bvec(lambda x: sc_f(mpc, x, **par), L['a'])) if sc_f else None,
@@ -459,7 +470,7 @@ def _cumsum(rng, kind, force):
     s = rshape(rng)
     axis = _axis(rng, len(s), allow_tuple=False)
     a = rvals(rng, kind, s)
-    which = rng.choice(['cumsum', 'cumulative_sum'])
+    which = _pick(rng, force, ['cumsum', 'cumulative_sum'])
     inc = which == 'cumulative_sum' and rng.random() < 0.5
     if which == 'cumulative_sum' and axis is None and len(s) > 1:
         axis = 0
@@ -487,7 +498,7 @@ def _trace(rng, kind, force):
     ax1, ax2 = rng.sample(range(len(s)), 2)
     if rng.random() < 0.3:
         ax1 -= len(s)
-    which = rng.choice(['trace', 'diagonal'])
+    which = _pick(rng, force, ['trace', 'diagonal'])
 
     def call(mpc, S, X):
         return (mpc.np_trace if which == 'trace' else mpc.np_diagonal)(X['a'], offset=off, axis1=ax1, axis2=ax2)
@@ -502,7 +513,7 @@ def _trace(rng, kind, force):
 def _argmin(rng, kind, force):
     s = rshape(rng, 3, 16, mindim=1, allow0=False)
     a = rvals(rng, kind, s, rng.choice(['small', 'tiny']))
-    which = rng.choice(['argmin', 'argmax'])
+    which = _pick(rng, force, ['argmin', 'argmax'])
     axis = _axis(rng, len(s), allow_tuple=False)
     keep = rng.random() < 0.3
     unary = rng.random() < 0.4
@@ -588,7 +599,7 @@ def _where(rng, kind, force):
         sc = sa
     a, b = rvals(rng, kind, sa), rvals(rng, kind, sb)
     c = rvals(rng, kind, sc, 'bits')
-    which = rng.choice(['where', 'if_swap'])
+    which = _pick(rng, force, ['where', 'if_swap'])
 
     def call(mpc, S, X):
         if which == 'where':
@@ -908,7 +919,7 @@ def _reshape(rng, kind, force):
 def _flatten(rng, kind, force):
     s = rshape(rng)
     order = rng.choice(['C', 'F'])
-    which = rng.choice(['flatten', 'tolist', 'copy', 'flat'])
+    which = _pick(rng, force, ['flatten', 'tolist', 'copy', 'flat'])
 
     def call(mpc, S, X):
         if which == 'flatten':
@@ -1001,7 +1012,7 @@ def _cat_shapes(rng, nd_min=1, n_arr=None, axis=None):
     shapes = []
     for _ in range(k):
         t = list(s)
-        t[axis] = rng.randint(0 if rng.random() < 0.1 else 1, 3)
+        t[axis] = rng.randint(0 if (rng.random() < 0.1 and arrays_ops.ALLOW0[0]) else 1, 3)
         shapes.append(tuple(t))
     return shapes, axis
 
@@ -1055,7 +1066,7 @@ def _stack(rng, kind, force):
 
 @_mov('np_xstack')
 def _xstack(rng, kind, force):
-    which = rng.choice(['vstack', 'hstack', 'dstack', 'column_stack', 'row_stack', 'block'])
+    which = _pick(rng, force, ['vstack', 'hstack', 'dstack', 'column_stack', 'row_stack', 'block'])
     k = rng.randint(1, 3)
     if which in ('vstack', 'row_stack'):
         nd = rng.randint(1, 3)
@@ -1109,7 +1120,7 @@ def _xstack(rng, kind, force):
 @_mov('np_split')
 def _split(rng, kind, force):
     s = list(rshape(rng, 3, 8, mindim=1, allow0=False))
-    which = rng.choice(['split', 'split', 'hsplit', 'vsplit', 'dsplit'])
+    which = _pick(rng, force, ['split', 'split', 'hsplit', 'vsplit', 'dsplit'])
     nd = {'hsplit': 2, 'vsplit': 1, 'dsplit': 3}.get(which, 1)
     while len(s) < nd:
         s.append(rng.randint(1, 2))
@@ -1141,7 +1152,7 @@ def _split(rng, kind, force):
 def _flip(rng, kind, force):
     s = rshape(rng)
     nd = len(s)
-    which = rng.choice(['flip', 'flip', 'fliplr', 'flipud'])
+    which = _pick(rng, force, ['flip', 'flip', 'fliplr', 'flipud'])
     if which == 'fliplr' and nd < 2 or which == 'flipud' and nd < 1:
         which = 'flip'
     axis = None if nd == 0 or rng.random() < 0.3 else rng.randrange(-nd, nd)
@@ -1190,7 +1201,7 @@ def _roll_secret(rng, kind, force):
 
 @_mov('np_dims')
 def _dims(rng, kind, force):
-    which = rng.choice(['expand_dims', 'squeeze', 'diag', 'diagflat'])
+    which = _pick(rng, force, ['expand_dims', 'squeeze', 'diag', 'diagflat'])
     if which == 'expand_dims':
         s = rshape(rng, 2, 8)
         k = rng.randint(1, 2)
@@ -1426,7 +1437,7 @@ def _add_bits(rng, kind, force):
 
 @op('np_transcendental', ['fxp'])
 def _transc(rng, kind, force):
-    which = rng.choice(['log', 'log2', 'log10', 'exp2', 'exp', 'pow_float', 'rpow2', 'rpow3'])
+    which = _pick(rng, force, ['log', 'log2', 'log10', 'exp2', 'exp', 'pow_float', 'rpow2', 'rpow3'])
     s = rshape(rng, 2, 6, allow0=False)
     if which.startswith('log') or which == 'pow_float':
         a = np.array([rng.randint(64, 2048) / 256 for _ in range(math.prod(s))]).reshape(s)
